@@ -460,7 +460,34 @@ impl Generate for PublicKey {
     fn generate(s: &mut Src<'_>) -> Self {
         match s.weighted(&[12, 1, 1]) {
             0 => SecretKey::from_seed(&s.array::<32>()).public_key(),
-            1 => PublicKey::default(), // the point at infinity
+            1 => {
+                // the point at infinity: the canonical all-zero representation, or
+                // the same VALUE as it comes out of group arithmetic (pk + (-pk),
+                // pk -= pk, 0 * pk: Z = 0 with whatever X and Y were left over)
+                match s.below(4) {
+                    0 => PublicKey::default(),
+                    1 => {
+                        let p = SecretKey::from_seed(&s.array::<32>()).public_key();
+                        let mut q = p;
+                        q.negate();
+                        gen_label("g1:computed-infinity");
+                        p + &q
+                    }
+                    2 => {
+                        let mut p = SecretKey::from_seed(&s.array::<32>()).public_key();
+                        let q = p;
+                        p -= &q;
+                        gen_label("g1:computed-infinity");
+                        p
+                    }
+                    _ => {
+                        let mut p = PublicKey::generator();
+                        p.scalar_multiply(&[0u8; 32]);
+                        gen_label("g1:computed-infinity");
+                        p
+                    }
+                }
+            }
             _ => PublicKey::generator(),
         }
     }
@@ -475,7 +502,22 @@ impl Generate for Signature {
                 let msg = s.bytes(n);
                 sign(&sk, msg)
             }
-            1 => Signature::default(),
+            1 => match s.below(3) {
+                0 => Signature::default(),
+                1 => {
+                    let sg = sign(&SecretKey::from_seed(&s.array::<32>()), b"x");
+                    let mut n = sg.clone();
+                    n.negate();
+                    gen_label("g2:computed-infinity");
+                    sg + &n
+                }
+                _ => {
+                    let mut sg = Signature::generator();
+                    sg.scalar_multiply(&[0u8; 32]);
+                    gen_label("g2:computed-infinity");
+                    sg
+                }
+            },
             _ => Signature::generator(),
         }
     }
